@@ -56,6 +56,8 @@ public:
   {
     size_t nr(A.getNumberOfRows()), nc(A.getNumberOfColumns());
     O.resize(nr, nc);
+    if (nr == 0)
+      return;
     for (size_t i = 0; i < nr - 1; i++)
     {
       for (size_t j = 0; j < nc; j++)
@@ -80,6 +82,8 @@ public:
   {
     size_t nr(A.getNumberOfRows()), nc(A.getNumberOfColumns());
     O.resize(nr, nc);
+    if (nr == 0)
+      return;
     for (size_t i = 1; i < nr; i++)
     {
       for (size_t j = 0; j < nc; j++)
